@@ -117,7 +117,8 @@ def body_decomp(case):
             e_opt = float(np.linalg.norm(Mx @ r.x - Bprime[i] * w))
             e_code = float(np.linalg.norm(Mx @ P[i] - Bprime[i] * w))
             worst = max(worst, e_code - e_opt)
-            check(e_code <= e_opt + 5e-3 * (1 + e_opt), "decomp:opacities-not-optimal",
+            # SCS (the procedure's default solver) is accurate to about 1e-4 of the size of the data
+            check(e_code <= e_opt + 5e-3 * (1 + e_opt) + 5e-4 * float(np.max(np.abs(Bprime[i] * w))), "decomp:opacities-not-optimal",
                   f"sample {i}: opacities are not optimal given the intensities: error {e_code:.6g} vs optimum {e_opt:.6g}")
         labs.append("nt:subsampled-P-refit")
     else:
